@@ -47,7 +47,10 @@ class C13(Prop):
             "EventBulkInsertNum = 1 while a second database connection holds the write lock (BEGIN IMMEDIATE), an "
             "EVENT-heavy history cut after its T-th EVENT (T = 2 x EventBulkInsertNum + 2 mostly: one in the stalled "
             "insertion, the hand-over queue full, one hand-over waiting; sometimes fewer, rarely one more), ended by "
-            "cancel with a draining or a stalled peer; the lock is released once the ending has been observed. About 6% of the "
+            "cancel with a draining or a stalled peer; in half of these cases the handler's pool has one connection, and in half a "
+            "REQ follows the events (it waits for that connection); the lock is released once the ending has been observed. "
+            "About 5%: a composition with the cache (capacity 32), 14..24 stored events, then a REQ matching all of them, the "
+            "session ended while the answer is being delivered. About 6% of the "
             "sessions (compositions with a router) have two busy neighbours on the same handler for as long as they last: one "
             "session sending REQ/CLOSE of one subscription id over and over, one publishing, up to 4000 messages each, both "
             "reading; they are cancelled afterwards and must end too (lock-order and registry contention). "
@@ -107,7 +110,7 @@ class C13(Prop):
         if c["k"] == "ws":
             return ["ws", c["st_ms"], c["ping_ms"]]
         return [c["comp"], c["mw"], [m["t"] for m in c.get("hist") or []], c["end"], c["peer"], bool(c.get("settle")),
-                c.get("companion", 0), c.get("store") or ""]
+                c.get("companion", 0), c.get("store") or "", bool(c.get("pool1"))]
 
     def nontrivial_key(self, c):
         # a session case says something when at least one message was in flight or answered
